@@ -78,6 +78,22 @@ func TestVerifC07Json(t *testing.T) {
 			_, err := ioutil.ReadAll(NewJsonPlusReader(bytes.NewReader(b)))
 			return err != nil
 		}},
+		// after-error reuse: Read is called again after it failed
+		{name: "json.reader.aftererror", gen: func(r *vRng) []byte {
+			return append(vC07Damage(r, vC07JsonDoc(r)), vC07JsonDoc(r)...)
+		}, run: func(b []byte) bool {
+			rd := NewJsonPlusReader(bytes.NewReader(b))
+			buf := make([]byte, 64)
+			errs := 0
+			for i := 0; i < 1000000 && errs < 5; i++ {
+				if _, err := rd.Read(buf); err != nil {
+					errs++
+				}
+			}
+			var v interface{}
+			_ = Unmarshal(bytes.NewReader(b), &v)
+			return false
+		}},
 		{name: "json.unmarshal", gen: vC07JsonDoc, run: func(b []byte) bool {
 			var v interface{}
 			return Unmarshal(bytes.NewReader(b), &v) != nil
